@@ -195,6 +195,37 @@ def run(check):
         r_set.violate('self.%s not updated' % attr, sc, None, 'setCapacityAndFillRate does not assign self.%s from its '
                       'parameter `%s`' % (attr, p), construct='self.%s = %s' % (attr, p))
 
+  init = tb.methods.get('__init__')
+  if init is not None and sc is not None:
+    ps = set(init.params[1:])
+    derived = {}
+    changed = True
+    srcs = set(ps)
+    while changed:
+      changed = False
+      for n in walk_no_nested(init.node, include_self=False):
+        if isinstance(n, ast.Assign):
+          names = {x.id for x in ast.walk(n.value) if isinstance(x, ast.Name)} | \
+                  {dotted(x) for x in ast.walk(n.value) if isinstance(x, ast.Attribute) and dotted(x)}
+          if names & srcs:
+            for t in n.targets:
+              d = dotted(t)
+              if d and d.startswith('self.') and d not in derived:
+                derived[d] = n
+                srcs.add(d)
+                changed = True
+    reassigned = {dotted(t) for n in walk_no_nested(sc.node, include_self=False) if isinstance(n, (ast.Assign, ast.AugAssign))
+                  for t in (n.targets if isinstance(n, ast.Assign) else [n.target])}
+    for d, n in sorted(derived.items()):
+      used_elsewhere = any(isinstance(x, ast.Attribute) and dotted(x) == d and isinstance(x.ctx, ast.Load)
+                           for m_ in tb.methods.values() if m_ not in (init, sc) for x in ast.walk(m_.node))
+      if d in reassigned or not used_elsewhere:
+        r_set.ok('%s (derived from the limits) is refreshed by setCapacityAndFillRate' % d, sc.loc())
+      else:
+        r_set.violate('%s goes stale when the limits change' % d, sc, None, '%s is computed from the capacity/fill rate in __init__ '
+                      '(`%s`) and used by other methods, but setCapacityAndFillRate does not recompute it: after the limits are changed '
+                      'at shutdown the bucket keeps waiting/granting by the old rate' % (d, short(n)), construct='%s not refreshed' % d)
+
   # ------------------------------------------------------------------ config
   r_cfg = check.rule('R-C20-config', 2, 'buckets built from MAX_CREATES_PER_MINUTE/60 and MAX_UPDATES_PER_SECOND')
   for name, setting, per in (('CREATE_BUCKET', 'MAX_CREATES_PER_MINUTE', 60), ('UPDATE_BUCKET', 'MAX_UPDATES_PER_SECOND', 1)):
